@@ -43,12 +43,12 @@ type realepReq struct {
 type realepConnKey struct{}
 
 type realepSrv struct {
-	mu    sync.Mutex
-	down  map[string]bool
-	kill  int
-	reqs  []realepReq
-	ts    *httptest.Server
-	ip    string
+	mu   sync.Mutex
+	down map[string]bool
+	kill int
+	reqs []realepReq
+	ts   *httptest.Server
+	ip   string
 }
 
 func (s *realepSrv) handler(w http.ResponseWriter, r *http.Request) {
@@ -269,6 +269,7 @@ func init() {
 		}
 		defer s.ts.Close()
 		run := func(l string) {
+			c.Note(l)
 			f := strings.Fields(l)
 			if len(f) != 3 || f[0] != "realep" {
 				c.Emit(l, "bad-op")
